@@ -4,7 +4,16 @@ Model: lean/Aiortc/Model/Sdp/{Lex,Attr,Session}.lean (L1 lexer, L2 per-attribute
 description).  Correspondence is function-level and in both directions: for every SDP text the real
 `SessionDescription.parse` result (canonical string of ALL fields) and `str(parse(text))` are diffed against
 the compiled model; the attribute codecs and the lexer primitives are diffed separately.
-The oracle evaluates the clauses of the property on the implementation alone."""
+The oracle evaluates the clauses of the property on the implementation alone.
+
+Round 3: the model is a set of pure functions, the implementation returns graphs of mutable objects.  Every parse case
+(descriptions, candidate lines, fmtp / group / address helpers, the signalling helper for descriptions, candidates with
+sdpMid / sdpMLineIndex, BYE) is evaluated several times in one process around a hostile owner who modifies every mutable
+part of the first result (`harness/c09hostile.py`); the parts of one result are modified one at a time; serialisers run on
+objects whose fields are overwritten in place and restored; the `ops` component runs step sequences over a pool of live
+results (texts that share candidate / fmtp / fingerprint lines, the same line trickled for several m-sections) against
+the pure reference semantics `Model/Sdp/Ops.lean`.  All of this happens in forked children (`Isolated`): the parent, where
+the oracles compute their references, never modifies a result."""
 from __future__ import annotations
 
 import ast
@@ -13,10 +22,11 @@ import os
 import string
 
 from harness import core
+from harness.c09hostile import Isolated, hostile, snap_diff, snapshot
 from harness.check import Component
 
-LEAN_TARGETS = ["Aiortc.Props.C09", "Aiortc.Props.C09Examples", "Aiortc.Props.C09Text"]
-AUDIT_PROPS = ["C09", "C09Text"]
+LEAN_TARGETS = ["Aiortc.Props.C09", "Aiortc.Props.C09Examples", "Aiortc.Props.C09Text", "Aiortc.Props.C09Ops"]
+AUDIT_PROPS = ["C09", "C09Text", "C09Ops"]
 DRIVERS = ["Sdp"]
 MANIFEST = {
     "technique": "Lean 4 theorems over an executable three-layer model of sdp.py (lexer, attribute codecs, whole description) "
@@ -33,7 +43,11 @@ MANIFEST = {
             "accepted_text_roundtrip: serialisation of any parser output succeeds, is accepted again, parses to the normal form normS of the first "
             "result and is a fixed point): parse_output_canonical (everything parse returns satisfies the invariant ParsedSession, proved through the "
             "m= line, all 20 branches of the first pass, the DTLS fix-up, the second pass and the session lines), canonical_norm_wf (its normal form "
-            "is WFSession), print_norm_invariant, printed_lines_nobreak, canonical_fixed_point; media_idempotent is the media-section instance.",
+            "is WFSession), print_norm_invariant, printed_lines_nobreak, canonical_fixed_point; media_idempotent is the media-section instance. "
+            "Props/C09Ops.lean (ops_parse_pure, ops_reparse_same, ops_cand_pure, ops_str_current_value, ops_parsed_then_str, ops_slots_independent, "
+            "ops_trickle_keeps_mid, ops_assign_roundtrip): in the reference semantics of a process that owns a pool of results, a parse observes its "
+            "text only and a serialiser the current value of its object only, after ANY history; the 'ops' correspondence and the repeated "
+            "evaluations around a hostile owner in every component hold the mutable implementation objects to that.",
     "design_ref": "DESIGN.md §2 C09",
 }
 ASSUMPTIONS = [
@@ -51,10 +65,15 @@ TRUSTED_EXTRA = [
     "Python str.split/splitlines/strip/join/int/str and ipaddress.ip_address are modelled (Model/Sdp/Lex.lean, isIPv4/isIPv6 in Attr.lean) and tied by the 'lex' and 'ip' correspondences only",
     "re.match of the two regular expressions in sdp.py is modelled by hand (mediaHeader, ipaddressFromSdp)",
     "json.dumps/json.loads in contrib/signaling.py are trusted; the helper is only exercised by the oracle",
+    "history independence is checked for state inside one process (fork isolation per run / per shrink step); the hostile owner and the snapshots go through public "
+    "attributes only; session-level a=fingerprint objects shared by the m-sections of ONE parse result are left alone (notes/C09.md)",
 ]
 RULE = ("session cases: real createOffer/createAnswer/localDescription objects over audio/video/datachannel × directions × bundle policy, generated "
         "structurally valid SessionDescription objects, the browser SDPs embedded in tests/test_sdp.py, and line-level mutations of all of these; "
-        "candidate / fmtp / group / ip / lexer cases: structured values plus malformed token streams; distinct = distinct canonical case")
+        "candidate / fmtp / group / ip / lexer cases: structured values plus malformed token streams; every case carries k (what the hostile owner "
+        "of the first result does before the same text is parsed again), object cases a previous value of the object, candidate cases the "
+        "m-sections the line is trickled for; ops cases: 4-30 steps (parse / candidate / trickle / owner modifies / owner overwrites / print) over "
+        "2-4 texts sharing candidate, fmtp and fingerprint lines; distinct = distinct canonical case")
 
 SAFE = set(string.ascii_letters + string.digits + "-_./:+=*@")
 
@@ -182,42 +201,173 @@ def session_spec(s) -> dict:
             "media": [media_spec(m) for m in s.media]}
 
 
-def session_build(spec: dict):
+def _lib():
     from aiortc import sdp
     from aiortc.rtcdtlstransport import RTCDtlsFingerprint, RTCDtlsParameters
     from aiortc.rtcicetransport import RTCIceParameters
     from aiortc.rtcrtpparameters import (RTCRtcpFeedback, RTCRtpCodecParameters, RTCRtpHeaderExtensionParameters,
                                          RTCRtpParameters)
     from aiortc.rtcsctptransport import RTCSctpCapabilities
+    import types
+    return types.SimpleNamespace(sdp=sdp, Fp=RTCDtlsFingerprint, Dtls=RTCDtlsParameters, Ice=RTCIceParameters, Fb=RTCRtcpFeedback,
+                                 Codec=RTCRtpCodecParameters, Ext=RTCRtpHeaderExtensionParameters, Rtp=RTCRtpParameters,
+                                 SctpCaps=RTCSctpCapabilities)
+
+
+def codec_build(L, c: dict):
+    return L.Codec(mimeType=c["mime"], clockRate=c["clock"], channels=c["channels"], payloadType=c["pt"],
+                   rtcpFeedback=[L.Fb(type=f[0], parameter=f[1]) for f in c["fb"]], parameters={k: v for k, v in c["params"]})
+
+
+def media_build(L, ms: dict):
+    sdp = L.sdp
+    m = sdp.MediaDescription(kind=ms["kind"], port=ms["port"], profile=ms["profile"], fmt=list(ms["fmt"]))
+    m.host, m.direction, m.msid = ms["host"], ms["direction"], ms["msid"]
+    m.rtcp_port, m.rtcp_host, m.rtcp_mux = ms["rtcp_port"], ms["rtcp_host"], ms["rtcp_mux"]
+    m.ssrc = [sdp.SsrcDescription(ssrc=x[0], cname=x[1], msid=x[2], mslabel=x[3], label=x[4]) for x in ms["ssrc"]]
+    m.ssrc_group = [sdp.GroupDescription(semantic=g[0], items=list(g[1])) for g in ms["ssrc_group"]]
+    m.rtp = L.Rtp(codecs=[codec_build(L, c) for c in ms["codecs"]],
+                  headerExtensions=[L.Ext(id=h[0], uri=h[1]) for h in ms["ext"]], muxId=ms["mid"])
+    if ms["max_message_size"] is not None:
+        m.sctpCapabilities = L.SctpCaps(maxMessageSize=ms["max_message_size"])
+    m.sctpmap = {k: v for k, v in ms["sctpmap"]}
+    m.sctp_port = ms["sctp_port"]
+    if ms["dtls"] is not None:
+        m.dtls = L.Dtls(fingerprints=[L.Fp(algorithm=f[0], value=f[1]) for f in ms["dtls"]["fp"]], role=ms["dtls"]["role"])
+    m.ice = L.Ice(usernameFragment=ms["ice"][0], password=ms["ice"][1], iceLite=ms["ice"][2])
+    m.ice_candidates = [cand_build(c) for c in ms["candidates"]]
+    m.ice_candidates_complete = ms["complete"]
+    m.ice_options = ms["ice_options"]
+    return m
+
+
+def session_build(spec: dict):
+    L = _lib()
+    sdp = L.sdp
     s = sdp.SessionDescription()
     s.version, s.origin, s.name, s.time, s.host = spec["version"], spec["origin"], spec["name"], spec["time"], spec["host"]
     s.group = [sdp.GroupDescription(semantic=g[0], items=list(g[1])) for g in spec["group"]]
     s.msid_semantic = [sdp.GroupDescription(semantic=g[0], items=list(g[1])) for g in spec["msid_semantic"]]
     for ms in spec["media"]:
-        m = sdp.MediaDescription(kind=ms["kind"], port=ms["port"], profile=ms["profile"], fmt=list(ms["fmt"]))
-        m.host, m.direction, m.msid = ms["host"], ms["direction"], ms["msid"]
-        m.rtcp_port, m.rtcp_host, m.rtcp_mux = ms["rtcp_port"], ms["rtcp_host"], ms["rtcp_mux"]
-        m.ssrc = [sdp.SsrcDescription(ssrc=x[0], cname=x[1], msid=x[2], mslabel=x[3], label=x[4]) for x in ms["ssrc"]]
-        m.ssrc_group = [sdp.GroupDescription(semantic=g[0], items=list(g[1])) for g in ms["ssrc_group"]]
-        m.rtp = RTCRtpParameters(
-            codecs=[RTCRtpCodecParameters(mimeType=c["mime"], clockRate=c["clock"], channels=c["channels"], payloadType=c["pt"],
-                                          rtcpFeedback=[RTCRtcpFeedback(type=f[0], parameter=f[1]) for f in c["fb"]],
-                                          parameters={k: v for k, v in c["params"]}) for c in ms["codecs"]],
-            headerExtensions=[RTCRtpHeaderExtensionParameters(id=h[0], uri=h[1]) for h in ms["ext"]],
-            muxId=ms["mid"])
-        if ms["max_message_size"] is not None:
-            m.sctpCapabilities = RTCSctpCapabilities(maxMessageSize=ms["max_message_size"])
-        m.sctpmap = {k: v for k, v in ms["sctpmap"]}
-        m.sctp_port = ms["sctp_port"]
-        if ms["dtls"] is not None:
-            m.dtls = RTCDtlsParameters(fingerprints=[RTCDtlsFingerprint(algorithm=f[0], value=f[1]) for f in ms["dtls"]["fp"]],
-                                       role=ms["dtls"]["role"])
-        m.ice = RTCIceParameters(usernameFragment=ms["ice"][0], password=ms["ice"][1], iceLite=ms["ice"][2])
-        m.ice_candidates = [cand_build(c) for c in ms["candidates"]]
-        m.ice_candidates_complete = ms["complete"]
-        m.ice_options = ms["ice_options"]
-        s.media.append(m)
+        s.media.append(media_build(L, ms))
     return s
+
+
+# ---- overwrite the fields of a LIVE object (the sub-objects and containers it already has are kept and written to) ----
+
+def _sync(live, specs, build, assign):
+    """Make the list `live` (modified in place) describe `specs`: existing elements are overwritten field by field,
+    missing ones are built, surplus ones removed.  An element that cannot be written to (frozen) is replaced."""
+    for i, sp in enumerate(specs):
+        if i < len(live):
+            try:
+                assign(live[i], sp)
+            except Exception:  # noqa: BLE001
+                live[i] = build(sp)
+        else:
+            live.append(build(sp))
+    del live[len(specs):]
+
+
+def _inplace_list(obj, name, values):
+    cur = getattr(obj, name, None)
+    if isinstance(cur, list):
+        cur[:] = values
+    else:
+        setattr(obj, name, list(values))
+
+
+def _inplace_dict(obj, name, pairs):
+    cur = getattr(obj, name, None)
+    if isinstance(cur, dict):
+        cur.clear()
+        cur.update({k: v for k, v in pairs})
+    else:
+        setattr(obj, name, {k: v for k, v in pairs})
+
+
+def _objs(obj, name):
+    cur = getattr(obj, name, None)
+    if not isinstance(cur, list):
+        cur = []
+        setattr(obj, name, cur)
+    return cur
+
+
+def cand_assign(c, d: dict):
+    c.foundation, c.component, c.protocol, c.priority = d["foundation"], d["component"], d["protocol"], d["priority"]
+    c.ip, c.port, c.type = d["ip"], d["port"], d["type"]
+    c.relatedAddress, c.relatedPort, c.tcpType = d.get("raddr"), d.get("rport"), d.get("tcptype")
+
+
+def group_assign(g, sp):
+    g.semantic = sp[0]
+    _inplace_list(g, "items", sp[1])
+
+
+def codec_assign(L, c, sp: dict):
+    c.mimeType, c.clockRate, c.channels, c.payloadType = sp["mime"], sp["clock"], sp["channels"], sp["pt"]
+
+    def fb_assign(f, x):
+        f.type, f.parameter = x[0], x[1]
+    _sync(_objs(c, "rtcpFeedback"), sp["fb"], lambda x: L.Fb(type=x[0], parameter=x[1]), fb_assign)
+    _inplace_dict(c, "parameters", sp["params"])
+
+
+def media_assign(L, m, ms: dict):
+    sdp = L.sdp
+    m.kind, m.port, m.profile = ms["kind"], ms["port"], ms["profile"]
+    _inplace_list(m, "fmt", ms["fmt"])
+    m.host, m.direction, m.msid = ms["host"], ms["direction"], ms["msid"]
+    m.rtcp_port, m.rtcp_host, m.rtcp_mux = ms["rtcp_port"], ms["rtcp_host"], ms["rtcp_mux"]
+
+    def ssrc_assign(o, x):
+        o.ssrc, o.cname, o.msid, o.mslabel, o.label = x
+    _sync(_objs(m, "ssrc"), ms["ssrc"], lambda x: sdp.SsrcDescription(ssrc=x[0], cname=x[1], msid=x[2], mslabel=x[3], label=x[4]), ssrc_assign)
+    _sync(_objs(m, "ssrc_group"), ms["ssrc_group"], lambda g: sdp.GroupDescription(semantic=g[0], items=list(g[1])), group_assign)
+    m.rtp.muxId = ms["mid"]
+
+    def ext_assign(h, x):
+        h.id, h.uri = x
+    _sync(_objs(m.rtp, "headerExtensions"), ms["ext"], lambda h: L.Ext(id=h[0], uri=h[1]), ext_assign)
+    _sync(_objs(m.rtp, "codecs"), ms["codecs"], lambda c: codec_build(L, c), lambda c, sp: codec_assign(L, c, sp))
+    if ms["max_message_size"] is None:
+        m.sctpCapabilities = None
+    else:
+        try:
+            m.sctpCapabilities.maxMessageSize = ms["max_message_size"]
+        except Exception:  # noqa: BLE001
+            m.sctpCapabilities = L.SctpCaps(maxMessageSize=ms["max_message_size"])
+    _inplace_dict(m, "sctpmap", ms["sctpmap"])
+    m.sctp_port = ms["sctp_port"]
+    if ms["dtls"] is None:
+        m.dtls = None
+    else:
+        # fingerprint OBJECTS are always new ones: SessionDescription.parse gives all m-sections of one result the same
+        # objects for session-level "a=fingerprint" lines (notes/C09.md), writing to them in place would be the harness' own aliasing
+        fps = [L.Fp(algorithm=f[0], value=f[1]) for f in ms["dtls"]["fp"]]
+        try:
+            m.dtls.role = ms["dtls"]["role"]
+            _inplace_list(m.dtls, "fingerprints", fps)
+        except Exception:  # noqa: BLE001
+            m.dtls = L.Dtls(fingerprints=fps, role=ms["dtls"]["role"])
+    try:
+        m.ice.usernameFragment, m.ice.password, m.ice.iceLite = ms["ice"]
+    except Exception:  # noqa: BLE001
+        m.ice = L.Ice(usernameFragment=ms["ice"][0], password=ms["ice"][1], iceLite=ms["ice"][2])
+    _sync(_objs(m, "ice_candidates"), ms["candidates"], cand_build, cand_assign)
+    m.ice_candidates_complete = ms["complete"]
+    m.ice_options = ms["ice_options"]
+
+
+def session_assign(s, spec: dict):
+    L = _lib()
+    sdp = L.sdp
+    s.version, s.origin, s.name, s.time, s.host = spec["version"], spec["origin"], spec["name"], spec["time"], spec["host"]
+    mk = lambda g: sdp.GroupDescription(semantic=g[0], items=list(g[1]))  # noqa: E731
+    _sync(_objs(s, "group"), spec["group"], mk, group_assign)
+    _sync(_objs(s, "msid_semantic"), spec["msid_semantic"], mk, group_assign)
+    _sync(_objs(s, "media"), spec["media"], lambda ms: media_build(L, ms), lambda m, ms: media_assign(L, m, ms))
 
 
 def outcome(fn, show):
@@ -418,6 +568,104 @@ def gen_session(rng) -> dict:
         s["group"].append([token(rng), [token(rng) for _ in range(rng.randint(0, 3))]])
     if rng.random() < 0.7:
         s["msid_semantic"].append(["WMS", rng.choice([["*"], [token(rng, 4, 10)], []])])
+    return s
+
+
+def edit_spec(spec: dict, k: int) -> dict:
+    """What an application does to ITS copy of a description ("munging"): a few field edits, as a new spec."""
+    import copy
+    import random
+    rng = random.Random(k)
+    s = copy.deepcopy(spec)
+    for _ in range(1 + k % 3):
+        op = rng.randrange(12)
+        ms = rng.choice(s["media"]) if s["media"] else None
+        if op == 0 or ms is None:
+            s["name"] = rng.choice(["-", "edited", s["name"] + "x"])
+            if s["group"] and rng.random() < 0.5:
+                s["group"][0][1] = s["group"][0][1][::-1] + ["e" + str(k)]
+        elif op == 1 and ms["candidates"]:
+            c = rng.choice(ms["candidates"])
+            c["ip"], c["port"] = rng.choice(["192.0.2.1", "2001:db8::1"]), rng.choice([9, (c["port"] + k) % 65536])
+            if rng.random() < 0.5:
+                c["raddr"], c["rport"], c["type"] = "10.0.0.1", k % 65536, "srflx"
+        elif op == 2:
+            ms["candidates"] = ms["candidates"][1:] if ms["candidates"] and rng.random() < 0.5 else ms["candidates"] + [gen_candidate(rng)]
+        elif op == 3 and ms["codecs"]:
+            c = rng.choice(ms["codecs"])
+            if c["params"] and rng.random() < 0.4:
+                c["params"] = c["params"][1:]
+            else:
+                c["params"] = [kv for kv in c["params"] if kv[0] != "x-e"] + [["x-e", str(k)]]
+        elif op == 4 and ms["codecs"]:
+            c = rng.choice(ms["codecs"])
+            c["fb"] = c["fb"][1:] if c["fb"] and rng.random() < 0.4 else c["fb"] + [["nack", rng.choice([None, "pli"])]]
+        elif op == 5 and ms["dtls"] is not None:
+            if ms["dtls"]["fp"] and rng.random() < 0.7:
+                ms["dtls"]["fp"][0][1] = ":".join(format(rng.randrange(256), "02X") for _ in range(32))
+            else:
+                ms["dtls"]["role"] = rng.choice(["auto", "client", "server"])
+        elif op == 6:
+            ms["ice"][0], ms["ice"][1] = "e" + token(rng, 3, 6), token(rng, 22, 24)
+        elif op == 7:
+            ms["port"] = (ms["port"] + k) % 65536
+            ms["direction"] = rng.choice(["sendrecv", "sendonly", "recvonly", "inactive"])
+        elif op == 8 and ms["ssrc"]:
+            ms["ssrc"][0][1] = "cname-e" + str(k)
+        elif op == 9 and ms["ext"]:
+            ms["ext"][0][1] = "urn:e:" + str(k)
+        elif op == 10:
+            ms["mid"] = "e" + str(k % 10)
+            ms["complete"] = not ms["complete"]
+        else:
+            ms["ice_options"] = rng.choice([None, "trickle", "e" + str(k)])
+            if ms["max_message_size"] is not None:
+                ms["max_message_size"] += k
+            if ms["sctp_port"] is not None:
+                ms["sctp_port"] = (ms["sctp_port"] + k) % 65536
+    return s
+
+
+def share_within(rng, spec: dict) -> dict:
+    """The same candidate / fmtp / fingerprint / credential values in several m-sections (one ICE agent on one port
+    for all of them, the same codec configuration twice ...): identical sub-texts inside ONE description."""
+    import copy
+    s = copy.deepcopy(spec)
+    if len(s["media"]) < 2:
+        s["media"] = s["media"] + [copy.deepcopy(m) for m in s["media"]] or [gen_media(rng, "audio", "0", False), gen_media(rng, "audio", "1", False)]
+        for i, m in enumerate(s["media"]):
+            m["mid"] = str(i)
+        s["group"] = []
+    src = s["media"][0]
+    if not src["candidates"]:
+        src["candidates"] = [gen_candidate(rng) for _ in range(rng.randint(1, 3))]
+    for m in s["media"][1:]:
+        if rng.random() < 0.8:
+            m["candidates"] = copy.deepcopy(src["candidates"][:rng.randint(1, len(src["candidates"]))])
+        if src["dtls"] is not None and rng.random() < 0.7:
+            m["dtls"] = copy.deepcopy(src["dtls"])
+        if rng.random() < 0.5:
+            m["ice"] = list(src["ice"])
+        for c, c0 in zip(m["codecs"], src["codecs"]):
+            if m["kind"] == src["kind"] and rng.random() < 0.7:
+                c["params"], c["fb"] = copy.deepcopy(c0["params"]), copy.deepcopy(c0["fb"])
+    return s
+
+
+def share_subtexts(rng, other: dict, spec: dict) -> dict:
+    """A variant of `other` that carries candidates / fingerprints / codecs of `spec`: identical sub-texts in TWO descriptions."""
+    import copy
+    s = copy.deepcopy(other)
+    if not s["media"] or not spec["media"]:
+        return s
+    for m in s["media"]:
+        src = rng.choice(spec["media"])
+        if src["candidates"]:
+            m["candidates"] = copy.deepcopy(src["candidates"])
+        if src["dtls"] is not None:
+            m["dtls"] = copy.deepcopy(src["dtls"])
+        if m["kind"] == src["kind"] and src["codecs"] and rng.random() < 0.7:
+            m["codecs"], m["fmt"] = copy.deepcopy(src["codecs"]), list(src["fmt"])
     return s
 
 
@@ -622,8 +870,165 @@ def _parse(text):
     return sdp.SessionDescription.parse(text)
 
 
-class Session(Component):
-    """L3: whole descriptions. case = {"origin": …, "spec": {...}} (an object) or {"origin": …, "text": …}."""
+# ---- history independence (round 3) ---------------------------------------------------------------------
+# The model is a set of pure functions.  The implementation returns mutable object graphs, so "the result depends on
+# the text only" has to be CHECKED: every parse is evaluated several times in one process around a hostile owner of the
+# first result, every serialiser on objects that carried (and serialised) other values before.  Anything that deviates
+# is appended to the impl string as " => <what>": the model (which prints the single-shot result) then disagrees as
+# well, and the oracle reports the part after "=>" together with the concrete case.
+
+def _try(fn):
+    try:
+        return "ok", fn()
+    except ValueError:
+        return "ValueError", None
+    except Exception as exc:  # noqa: BLE001
+        return "crash " + type(exc).__name__, None
+
+
+def _short(x, n=160):
+    x = str(x)
+    return x if len(x) <= n else x[:n] + "…"
+
+
+def purity(what: str, f, k: int, ser=None, skip_types=()):
+    """`f()` parses one fixed text.  Evaluate it three times around a hostile owner of the first result."""
+    t1, r1 = _try(f)
+    s1 = snapshot(r1)
+    o1 = _try(lambda: ser(r1)) if (ser and t1 == "ok") else None
+    t2, r2 = _try(f)
+    s2 = snapshot(r2)
+    if (t2, s2) != (t1, s1):
+        return f"{what} twice in a row gives two different results: {t1} / {t2}: " + snap_diff(s1, s2)
+    if t1 != "ok":
+        return None
+    hostile(r1, k, skip_types)
+    s2b = snapshot(r2)
+    if s2b != s2:
+        return (f"two results of {what} share state: after the owner of the first result modified it (k={k}) the second result "
+                "changed: " + snap_diff(s2, s2b))
+    t3, r3 = _try(f)
+    s3 = snapshot(r3)
+    if (t3, s3) != (t1, s1):
+        return (f"{what} again after the owner of the first result modified it (k={k}) gives another result "
+                f"({t3}): " + snap_diff(s1, s3))
+    if ser:
+        o3 = _try(lambda: ser(r3))
+        if o3 != o1:
+            return (f"{what} again after the owner of the first result modified it (k={k}): the new result serialises to "
+                    f"{_short(o3)} instead of {_short(o1)}")
+    return None
+
+
+def _session_level_fingerprint(text: str) -> bool:
+    for line in text.splitlines():
+        if line.startswith("m="):
+            return False
+        if line.startswith("a=fingerprint"):
+            return True
+    return False
+
+
+def parts_independent(p, k: int, text: str):
+    """Modify ONE m-section (or the session-level fields) of a parse result: the others must not change."""
+    media = list(p.media)
+    n = len(media)
+    if n == 0:
+        return None
+    names = sorted(x for x in vars(p) if not x.startswith("_") and x != "media")
+
+    def snaps():
+        return [snapshot(m) for m in media] + [snapshot({x: getattr(p, x) for x in names})]
+    # SessionDescription.parse hands the objects made for session-level a=fingerprint lines to every m-section of the
+    # result (observed on the pinned code, notes/C09.md "Observed and left alone"): their fields are left alone here
+    skip = ("RTCDtlsFingerprint",) if _session_level_fingerprint(text) else ()
+    before = snaps()
+    target = k % (n + 1)
+    if target < n:
+        hostile(media[target], k, skip)
+    else:
+        for x in names:
+            v = getattr(p, x)
+            nv = hostile(v, k, skip, name=x)
+            if nv is not v:
+                try:
+                    setattr(p, x, nv)
+                except Exception:  # noqa: BLE001
+                    pass
+    after = snaps()
+    part = lambda i: f"m-section {i}" if i < n else "the session-level fields"  # noqa: E731
+    for i in range(n + 1):
+        if i != target and before[i] != after[i]:
+            return (f"the parts of ONE parse result share state: after the owner modified {part(target)} (k={k}), "
+                    f"{part(i)} changed: " + snap_diff(before[i], after[i]))
+    return None
+
+
+def codecs_independent(p, k: int):
+    """The same one level down: modify ONE codec of an m-section, the other codecs of that section must not change
+    (`a=rtcp-fb:* ...` and fmtp lines apply one text to several codecs)."""
+    for m in p.media[k % len(p.media):] if p.media else []:
+        codecs = list(getattr(getattr(m, "rtp", None), "codecs", None) or [])
+        if len(codecs) < 2:
+            continue
+        before = [snapshot(c) for c in codecs]
+        target = k % len(codecs)
+        hostile(codecs[target], k)
+        for i, c in enumerate(codecs):
+            if i != target and snapshot(c) != before[i]:
+                return (f"the codecs of one m-section of a parse result share state: after the owner modified codec {target} "
+                        f"(k={k}), codec {i} changed: "
+                        + snap_diff(before[i], snapshot(c)))
+        return None
+    return None
+
+
+def reuse_serialise(p, spec1: dict, spec2: dict, s1, what: str):
+    """str() on an object whose fields are overwritten (its own sub-objects and containers are kept), then restored."""
+    session_assign(p, spec2)
+    got = _try(lambda: str(p))
+    want = _try(lambda: str(session_build(spec2)))
+    if got != want:
+        d = first_diff(want[1], got[1]) if got[0] == want[0] == "ok" else f"{_short(want)} vs {_short(got)}"
+        return (f"{what}, fields overwritten in place, str(): differs from str() of a fresh object with the same field values "
+                f"(expected line vs got): {d}")
+    session_assign(p, spec1)
+    back = _try(lambda: str(p))
+    if back != s1:
+        d = first_diff(s1[1], back[1]) if back[0] == s1[0] == "ok" else f"{_short(s1)} vs {_short(back)}"
+        return f"{what}, fields edited, serialised, edited back: str() is not the text it was before the edit: {d}"
+    return None
+
+
+def signalling_description(t: str, k: int):
+    from aiortc import RTCSessionDescription
+    from aiortc.contrib import signaling
+    import json
+    ty = ["offer", "answer"][k % 2]
+    d = RTCSessionDescription(sdp=t, type=ty)
+    msg = signaling.object_to_string(d)
+    if json.loads(msg) != {"sdp": t, "type": ty}:
+        return f"object_to_string(description) = {_short(msg)}"
+    r = purity("object_from_string(description message)", lambda: signaling.object_from_string(msg), k, ser=signaling.object_to_string)
+    if r:
+        return r
+    back = signaling.object_from_string(msg)
+    if (back.sdp, back.type) != (t, ty) or signaling.object_to_string(back) != msg:
+        return f"signalling helper does not round-trip the description: type {ty} -> {back.type}, sdp equal: {back.sdp == t}"
+    # the same description object, edited and sent again
+    t2 = t + "a=x-edited:" + str(k) + "\r\n"
+    try:
+        d.sdp, d.type = t2, ["answer", "offer"][k % 2]
+    except Exception:  # noqa: BLE001 - immutable description: fine
+        return None
+    if json.loads(signaling.object_to_string(d)) != {"sdp": t2, "type": d.type}:
+        return "object_to_string on a description object that was sent before and edited since gives the OLD message"
+    return None
+
+
+class Session(Isolated):
+    """L3: whole descriptions. case = {"origin": …, "spec": {...}} (an object) or {"origin": …, "text": …};
+    optional "k" (what the hostile owner does), "prev" (spec the object carried before)."""
     name = "session"
     theorems = ["generated_fixed_point", "session_roundtrip", "splitlines_unlines", "media_roundtrip", "candidate_line_in_media", "rtpmap_roundtrip", "rtcpfb_roundtrip", "extmap_roundtrip",
                 "fingerprint_roundtrip", "setup_roundtrip", "ssrc_line_roundtrip", "sctpmap_roundtrip", "ssrc_group_roundtrip"]
@@ -641,7 +1046,13 @@ class Session(Component):
                   "v=0\r\ns=x \r\nb=AS:1\r\nm=audio 9 RTP/AVP 96\r\na=mid\r\na=rtcp-mux\r\na=ssrc:1 foo:bar\r\n"
                   "a=rtpmap:96 opus/48000/6\r\na=rtcp-fb:96 nack \r\na=fmtp:96 \r\na=fingerprint:sha-256 AA\r\na=foo:bar\r\n",
                   "v=0\r\nm=a/b 9 X 0\r\na=rtpmap:96 opus/48000\r\n",
-                  "v=0\r\nm=a/b/c 9 X/Y 0 1\r\na=rtpmap:96 opus/48000/2\r\na=rtcp-fb:* nack pli\r\na=fmtp:96 x=1;apt=2\r\na=msid:\r\na=ice-ufrag\r\n"]:
+                  "v=0\r\nm=a/b/c 9 X/Y 0 1\r\na=rtpmap:96 opus/48000/2\r\na=rtcp-fb:* nack pli\r\na=fmtp:96 x=1;apt=2\r\na=msid:\r\na=ice-ufrag\r\n",
+                  # the same candidate / fmtp / fingerprint lines in two m-sections, session-level and media-level credentials
+                  "v=0\r\no=- 1 2 IN IP4 127.0.0.1\r\ns=-\r\nt=0 0\r\na=fingerprint:sha-256 AA:BB\r\na=setup:actpass\r\na=ice-ufrag:sess\r\na=ice-pwd:sesspwd\r\n"
+                  "m=audio 40000 UDP/TLS/RTP/SAVPF 96\r\na=mid:0\r\na=rtpmap:96 opus/48000/2\r\na=fmtp:96 minptime=10;useinbandfec=1\r\n"
+                  "a=candidate:1 1 udp 2130706431 203.0.113.7 40000 typ host\r\na=ice-ufrag:one\r\n"
+                  "m=audio 40000 UDP/TLS/RTP/SAVPF 96\r\na=mid:1\r\na=rtpmap:96 opus/48000/2\r\na=fmtp:96 minptime=10;useinbandfec=1\r\n"
+                  "a=candidate:1 1 udp 2130706431 203.0.113.7 40000 typ host\r\na=fingerprint:sha-256 AA:BB\r\n"]:
             out.append({"origin": "corpus", "text": t})
         return out
 
@@ -667,6 +1078,22 @@ class Session(Component):
                     pass
         for _ in range(1500 if quick else 40000):
             out.append({"origin": "mut", "text": mutate_text(rng, rng.choice(bases))})
+        # round 3: what the owner of a result does to it (k) and, for objects, what the object carried before (prev);
+        # drawn from a separate stream so that the cases above are the ones of the earlier rounds
+        r2 = core.rng("C09:session:history")
+        specs = [c["spec"] for c in out if "spec" in c]
+        for _ in range(80 if quick else 2000):  # identical sub-texts in several m-sections of one description
+            spec = share_within(r2, r2.choice(specs) if r2.random() < 0.3 else gen_session(r2))
+            out.append({"origin": "shared", "spec": spec})
+            if r2.random() < 0.5:
+                try:
+                    out.append({"origin": "shared-mut", "text": mutate_text(r2, str(session_build(spec)))})
+                except Exception:  # noqa: BLE001
+                    pass
+        for c in out:
+            c["k"] = r2.randrange(1, 1000)
+            if "spec" in c and r2.random() < 0.5:
+                c["prev"] = share_subtexts(r2, r2.choice(specs), c["spec"]) if r2.random() < 0.5 else gen_session(r2)
         return out
 
     def _text(self, case):
@@ -683,16 +1110,67 @@ class Session(Component):
             return None
         return "sdp both " + enc(t)
 
-    def impl(self, case):
+    def _impl(self, case):
+        k = case.get("k", 1)
+        extra = None
+        if "prev" in case and "spec" in case:
+            # the object was another description before, was serialised as such, and had every field overwritten since
+            obj = session_build(case["prev"])
+            _try(lambda: str(obj))
+            session_assign(obj, case["spec"])
+            got, want = _try(lambda: str(obj)), _try(lambda: str(session_build(case["spec"])))
+            if got != want:
+                d = first_diff(want[1], got[1]) if got[0] == want[0] == "ok" else f"{_short(want)} vs {_short(got)}"
+                extra = ("an object that carried and serialised another description before, every field overwritten: str() differs from "
+                         "str() of a fresh object with the same field values (expected line vs got): " + d)
         try:
             t = self._text(case)
         except Exception as exc:  # noqa: BLE001
             return "str-failed " + type(exc).__name__
         a = outcome(lambda: _parse(t), lambda s: canon_session(session_spec(s)))
         b = outcome(lambda: str(_parse(t)), enc)
-        return a + " || " + b
+        out = a + " || " + b
+        try:
+            extra = extra or self._history(case, t, k, a, b)
+        except Exception as exc:  # noqa: BLE001 - the harness could not drive the objects: leave it to the correspondence
+            return "HARNESS-EXC " + type(exc).__name__ + ": " + str(exc)[:200]
+        return out + (" => " + extra if extra else "")
+
+    def _history(self, case, t, k, a, b):
+        r = purity("SessionDescription.parse(text)", lambda: _parse(t), k, ser=str)
+        if r:
+            return r
+        # the single-shot observation above and the ones made now must agree as well
+        a2 = outcome(lambda: _parse(t), lambda s: canon_session(session_spec(s)))
+        b2 = outcome(lambda: str(_parse(t)), enc)
+        if (a2, b2) != (a, b):
+            return "the same text parsed at two moments of one process gives two results: " + snap_diff(a + " || " + b, a2 + " || " + b2)
+        if not a.startswith("ok "):
+            return None
+        r = parts_independent(_parse(t), k, t) or codecs_independent(_parse(t), k)
+        if r:
+            return r
+        p = _parse(t)
+        spec1 = session_spec(p)
+        s1 = _try(lambda: str(p))
+        if _try(lambda: str(p)) != s1:
+            return "str() twice on one object gives two texts"
+        r = reuse_serialise(p, spec1, edit_spec(spec1, k), s1, "a parse result")
+        if r:
+            return r
+        if "spec" in case and k % 2:
+            r = reuse_serialise(p, spec1, case.get("prev") or edit_spec(case["spec"], k + 1), s1, "a parse result")
+            if r:
+                return r
+        if k % 3 == 0 and not any(0xD800 <= ord(c) <= 0xDFFF for c in t):
+            return signalling_description(t, k)
+        return None
 
     def oracle(self, case, impl_out):
+        if impl_out.startswith("HARNESS-EXC"):
+            return None
+        if " => " in impl_out:
+            return impl_out.split(" => ", 1)[1]
         if "spec" in case:
             obj = session_build(case["spec"])
             try:
@@ -709,6 +1187,10 @@ class Session(Component):
             want, got = session_spec(obj), session_spec(p)
             if canon_session(want) != canon_session(got):
                 return "parsing does not recover the fields put in: " + spec_diff(want, got)
+            # what the (forked, hostile) evaluation saw must be what this process, where nothing is ever modified, sees
+            here = "ok " + canon_session(got) + " || ok " + enc(t2)
+            if impl_out != here:
+                return "the description parsed/serialised differently in the process where results of earlier parses were modified: " + snap_diff(here, impl_out)
             return None
         t = case["text"]
         try:
@@ -725,6 +1207,9 @@ class Session(Component):
             return f"serialisation of an accepted text is rejected on the second round: {type(exc).__name__}: {exc}"
         if t1 != t2:
             return "parse-and-serialise is not idempotent: " + first_diff(t1, t2)
+        here = "ok " + canon_session(session_spec(p)) + " || ok " + enc(t1)
+        if impl_out != here:
+            return "the text parsed/serialised differently in the process where results of earlier parses were modified: " + snap_diff(here, impl_out)
         return None
 
     def label(self, case, impl_out):
@@ -734,7 +1219,11 @@ class Session(Component):
     def nontrivial(self, case, impl_out):
         return True
 
-    def shrink(self, case):
+    def _shrink(self, case):
+        if "prev" in case:
+            yield {x: y for x, y in case.items() if x != "prev"}
+        if case.get("k", 1) > 3:
+            yield dict(case, k=case["k"] % 3 + 1)
         if "text" in case:
             lines = case["text"].splitlines()
             for i in range(len(lines)):
@@ -782,7 +1271,7 @@ def spec_diff(a, b, path="") -> str:
     return f"{path or 'value'}: put in {a!r}, recovered {b!r}"
 
 
-class CandidateC(Component):
+class CandidateC(Isolated):
     """L2: candidate lines, incl. the signalling helper. case = {"cand": {...}} or {"line": str}."""
     name = "candidate"
     theorems = ["candidate_roundtrip", "candidate_line_roundtrip", "candidate_idempotent"]
@@ -824,27 +1313,129 @@ class CandidateC(Component):
                 else:
                     rng.shuffle(toks)
                 out.append({"line": rng.choice([" ", "  ", "\t"]).join(toks) if rng.random() < 0.3 else " ".join(toks)})
+        # round 3 (separate stream): what the owner does (k), for which m-sections the line is trickled (sig), what the object carried before (prev)
+        r2 = core.rng("C09:candidate:history")
+        for c in out:
+            c["k"] = r2.randrange(1, 1000)
+            if r2.random() < 0.6:
+                mids = [r2.choice(["0", "1", "2", "audio", token(r2, 1, 5)]) for _ in range(r2.randint(1, 3))]
+                c["sig"] = [[m, r2.choice([0, 1, 2, r2.randrange(64)])] for m in mids]
+            if r2.random() < 0.4:
+                c["prev"] = gen_candidate(r2)
         return out
 
     def _line(self, case):
         return case["line"] if "line" in case else cand_line(case["cand"])
 
+    def corpus(self):
+        c = {"foundation": "1", "component": 1, "protocol": "udp", "priority": 2130706431, "ip": "203.0.113.7", "port": 40000,
+             "type": "host", "raddr": None, "rport": None, "tcptype": None}
+        # one server port for two non-bundled m-sections: the same line trickled for mid "0" and mid "1"
+        return [{"cand": c, "sig": [["0", 0], ["1", 1]], "k": 1}, {"bye": True, "k": 1},
+                {"cand": dict(c, type="srflx", raddr="10.0.0.1", rport=9), "sig": [["a", 0], ["a", 0], ["b", 7]], "k": 2,
+                 "prev": dict(c, protocol="tcp", tcptype="passive", ip="::1")}]
+
     def model_line(self, case):
+        if "bye" in case:
+            return None
         l = self._line(case)
         if any(ch.isdigit() and not ch.isascii() for ch in l):
             return None  # non-ASCII decimal digits: outside the int() model
         return "sdp cand " + enc(l)
 
-    def impl(self, case):
+    def _impl(self, case):
         from aiortc import sdp
+        if "bye" in case:
+            return "ok bye" + self._tail(self._bye(case.get("k", 1)))
         l = self._line(case)
         a = outcome(lambda: sdp.candidate_from_sdp(l), lambda c: canon_cand(cand_spec(c)))
         b = outcome(lambda: sdp.candidate_to_sdp(sdp.candidate_from_sdp(l)), enc)
-        return a + " || " + b
+        try:
+            extra = self._history(case, l, case.get("k", 1), a, b)
+        except Exception as exc:  # noqa: BLE001
+            return "HARNESS-EXC " + type(exc).__name__ + ": " + str(exc)[:200]
+        return a + " || " + b + self._tail(extra)
+
+    @staticmethod
+    def _tail(extra):
+        return " => " + extra if extra else ""
+
+    def _bye(self, k):
+        from aiortc.contrib import signaling
+        msg = signaling.object_to_string(signaling.BYE)
+        r = purity("object_from_string(bye message)", lambda: signaling.object_from_string(msg), k, ser=signaling.object_to_string)
+        if r:
+            return r
+        if signaling.object_from_string(msg) is not signaling.BYE or signaling.object_to_string(signaling.BYE) != msg:
+            return "BYE does not round-trip through the signalling helper"
+        return None
+
+    def _history(self, case, l, k, a, b):
+        import json
+        from aiortc import sdp
+        from aiortc.contrib import signaling
+        r = purity("candidate_from_sdp(line)", lambda: sdp.candidate_from_sdp(l), k, ser=sdp.candidate_to_sdp)
+        if r:
+            return r
+        a2 = outcome(lambda: sdp.candidate_from_sdp(l), lambda c: canon_cand(cand_spec(c)))
+        b2 = outcome(lambda: sdp.candidate_to_sdp(sdp.candidate_from_sdp(l)), enc)
+        if (a2, b2) != (a, b):
+            return "the same line parsed at two moments of one process gives two results: " + snap_diff(a + " || " + b, a2 + " || " + b2)
+        if not a.startswith("ok "):
+            return None
+        c = sdp.candidate_from_sdp(l)
+        if c.sdpMid is not None or c.sdpMLineIndex is not None:
+            return f"candidate_from_sdp returns a candidate that already has sdpMid={c.sdpMid!r} sdpMLineIndex={c.sdpMLineIndex!r}"
+        spec1, l1 = cand_spec(c), sdp.candidate_to_sdp(c)
+        # serialise an object that is edited in between (the reference printer is the harness' own cand_line)
+        spec2 = case.get("prev") or dict(spec1, ip="192.0.2.1", port=(spec1["port"] + k) % 65536, raddr="10.0.0.1", rport=k % 65536)
+        cand_assign(c, spec2)
+        if sdp.candidate_to_sdp(c) != cand_line(spec2):
+            return (f"candidate_to_sdp on a parsed candidate whose fields were edited prints {sdp.candidate_to_sdp(c)!r}, "
+                    f"the fields say {cand_line(spec2)!r}")
+        cand_assign(c, spec1)
+        if sdp.candidate_to_sdp(c) != l1:
+            return f"candidate edited, printed, edited back: prints {sdp.candidate_to_sdp(c)!r}, was {l1!r}"
+        # signalling: the line is trickled for several m-sections (mid, index); every decoded candidate must encode back to
+        # exactly the message it came from - also after the other messages were decoded
+        sig = case.get("sig") or [[str(k % 3), k % 3]]
+
+        def message(line, mid, idx):
+            return json.dumps({"candidate": "candidate:" + line, "id": mid, "label": idx, "type": "candidate"}, sort_keys=True)
+        # object_from_string cuts at the first ":" and candidate_from_sdp splits at blanks: use the canonical line
+        msgs = [message(l1, mid, idx) for mid, idx in sig]
+        objs = [signaling.object_from_string(m) for m in msgs]
+        for i, (o, m, (mid, idx)) in enumerate(zip(objs, msgs, sig)):
+            if cand_spec(o) != spec1 or (o.sdpMid, o.sdpMLineIndex) != (mid, idx):
+                return (f"candidate message {i} of {len(msgs)} ({l1!r} for mid {mid!r} index {idx}) decodes to "
+                        f"{cand_line(cand_spec(o))!r} mid {o.sdpMid!r} index {o.sdpMLineIndex!r} once all messages are decoded")
+            if signaling.object_to_string(o) != m:
+                return (f"candidate message {i} of {len(msgs)} does not encode back to the message it was decoded from: "
+                        f"{m} -> {signaling.object_to_string(o)}")
+        r = purity("object_from_string(candidate message)", lambda: signaling.object_from_string(msgs[0]), k, ser=signaling.object_to_string)
+        if r:
+            return r
+        # a description containing the line, after the line went through the signalling layer
+        c = sdp.candidate_from_sdp(l)
+        if (c.sdpMid, c.sdpMLineIndex) != (None, None) or cand_spec(c) != spec1:
+            return (f"candidate_from_sdp after the same line was decoded by the signalling helper returns mid {c.sdpMid!r} index "
+                    f"{c.sdpMLineIndex!r} {cand_line(cand_spec(c))!r}")
+        # an application-built candidate sent twice with different mids
+        own = cand_build(spec1)
+        for mid, idx in sig:
+            own.sdpMid, own.sdpMLineIndex = mid, idx
+            if signaling.object_to_string(own) != message(l1, mid, idx):
+                return f"object_to_string on a candidate object that was sent before (other mid) gives {signaling.object_to_string(own)}"
+        return None
 
     def oracle(self, case, impl_out):
         from aiortc import sdp
-        from aiortc.contrib import signaling
+        if impl_out.startswith("HARNESS-EXC"):
+            return None
+        if " => " in impl_out:
+            return impl_out.split(" => ", 1)[1]
+        if "bye" in case:
+            return None
         if "cand" in case:
             c = cand_build(case["cand"])
             line = sdp.candidate_to_sdp(c)
@@ -855,11 +1446,8 @@ class CandidateC(Component):
                 return f"candidate_to_sdp printed {line!r}, expected {cand_line(case['cand'])!r}"
             if sdp.candidate_to_sdp(back) != line:
                 return f"candidate line does not round-trip exactly: {line!r}"
-            # signalling helper
-            c.sdpMid, c.sdpMLineIndex = "0", 0
-            back2 = signaling.object_from_string(signaling.object_to_string(c))
-            if back2 != c:
-                return f"signalling helper does not round-trip the candidate: {c} -> {back2}"
+            if impl_out != "ok " + canon_cand(cand_spec(back)) + " || ok " + enc(line):
+                return "the candidate parsed differently in the process where results of earlier parses were modified: " + _short(impl_out, 300)
             return None
         l = case["line"]
         try:
@@ -873,23 +1461,36 @@ class CandidateC(Component):
             return f"serialised candidate {l1!r} is rejected: {type(exc).__name__}"
         if cand_spec(c1) != cand_spec(c) or sdp.candidate_to_sdp(c1) != l1:
             return f"candidate parse/serialise not idempotent on {l!r}: {l1!r} -> {sdp.candidate_to_sdp(c1)!r}"
+        if impl_out != "ok " + canon_cand(cand_spec(c)) + " || ok " + enc(l1):
+            return "the line parsed differently in the process where results of earlier parses were modified: " + _short(impl_out, 300)
         return None
 
     def label(self, case, impl_out):
+        if "bye" in case:
+            return "bye"
         kind = "cand" if "cand" in case else "line"
         if "cand" in case:
             c = case["cand"]
             return f"cand:{c['type']}:{c['protocol'].lower()}:{'r' if c.get('raddr') else '-'}{'p' if c.get('rport') is not None else '-'}{'t' if c.get('tcptype') else '-'}"
         return kind + ":" + " ".join(impl_out.split(" ", 2)[:2 if impl_out.startswith("crash") else 1])
 
-    def shrink(self, case):
+    def _shrink(self, case):
+        if "prev" in case:
+            yield {x: y for x, y in case.items() if x != "prev"}
+        if len(case.get("sig") or []) > 1:
+            for i in range(len(case["sig"])):
+                yield dict(case, sig=case["sig"][:i] + case["sig"][i + 1:])
+        elif "sig" in case:
+            yield {x: y for x, y in case.items() if x != "sig"}
+        if case.get("k", 1) > 3:
+            yield dict(case, k=case["k"] % 3 + 1)
         if "line" in case:
             toks = case["line"].split()
             for i in range(len(toks)):
-                yield {"line": " ".join(toks[:i] + toks[i + 1:])}
+                yield dict(case, line=" ".join(toks[:i] + toks[i + 1:]))
 
 
-class ParamsC(Component):
+class ParamsC(Isolated):
     """L2: fmtp parameters, groups, connection addresses. case = {"params": [[k,v]…]} | {"fmtp": str} | {"group": str} | {"ip": str}."""
     name = "attr"
     theorems = ["params_roundtrip", "params_idempotent", "group_roundtrip", "group_idempotent", "ipaddress_roundtrip"]
@@ -924,6 +1525,9 @@ class ParamsC(Component):
             out.append({"ip": a})
             if rng.random() < 0.3:
                 out.append({"ip": rng.choice(["IN IP4 ", "IN IP6 ", "IN IP4", "IN  IP4 "]) + a})
+        r2 = core.rng("C09:attr:history")
+        for c in out:
+            c["k"] = r2.randrange(1, 1000)
         return out
 
     def model_line(self, case):
@@ -935,7 +1539,67 @@ class ParamsC(Component):
             return "sdp group " + enc(case["group"])
         return "sdp ip " + enc(case["ip"])
 
-    def impl(self, case):
+    def _impl(self, case):
+        out = self._single(case)
+        try:
+            extra = self._history(case, case.get("k", 1))
+        except Exception as exc:  # noqa: BLE001
+            return "HARNESS-EXC " + type(exc).__name__ + ": " + str(exc)[:200]
+        return out + (" => " + extra if extra else "")
+
+    def _history(self, case, k):
+        from aiortc import sdp
+        ref = lambda d: ";".join(str(x) if v is None else f"{x}={v}" for x, v in d.items())  # noqa: E731 - the harness' own printer
+        if "params" in case or "fmtp" in case:
+            s = case["fmtp"] if "fmtp" in case else ";".join(x if v is None else f"{x}={v}" for x, v in case["params"])
+            r = purity("parameters_from_sdp(text)", lambda: sdp.parameters_from_sdp(s), k, ser=sdp.parameters_to_sdp)
+            if r:
+                return r
+            t, d = _try(lambda: sdp.parameters_from_sdp(s))
+            if t != "ok":
+                return None
+            o1 = sdp.parameters_to_sdp(d)
+            key = "x-e"
+            while key in d:
+                key += "e"
+            d[key] = k
+            first = next(iter(d))
+            old = d[first]
+            d[first] = "e"
+            if sdp.parameters_to_sdp(d) != ref(d):
+                return f"parameters_to_sdp on a parsed dict that was edited prints {sdp.parameters_to_sdp(d)!r}, the dict says {ref(d)!r}"
+            d[first] = old
+            del d[key]
+            if sdp.parameters_to_sdp(d) != o1:
+                return f"fmtp dict edited, printed, edited back: prints {sdp.parameters_to_sdp(d)!r}, was {o1!r}"
+            return None
+        if "group" in case:
+            for ty in (str, int):
+                def pg():
+                    dest = []
+                    sdp.parse_group(dest, case["group"], ty)
+                    return dest
+                r = purity(f"parse_group(text, {ty.__name__})", pg, k, ser=lambda d: [str(g) for g in d])
+                if r:
+                    return r
+                t, dest = _try(pg)
+                for g in (dest or []):
+                    o1 = str(g)
+                    g.items.append(k if ty is int else "e")
+                    want = f"{g.semantic} {' '.join(map(str, g.items))}"
+                    if str(g) != want:
+                        return f"str() of a parsed group whose items were edited gives {str(g)!r}, the fields say {want!r}"
+                    g.items.pop()
+                    if str(g) != o1:
+                        return f"group edited, printed, edited back: prints {str(g)!r}, was {o1!r}"
+            return None
+        for what, f in (("ipaddress_to_sdp", sdp.ipaddress_to_sdp), ("ipaddress_from_sdp", sdp.ipaddress_from_sdp)):
+            r = purity(f"{what}(text)", lambda: f(case["ip"]), k)
+            if r:
+                return r
+        return None
+
+    def _single(self, case):
         from aiortc import sdp
         if "params" in case or "fmtp" in case:
             s = case["fmtp"] if "fmtp" in case else ";".join(k if v is None else f"{k}={v}" for k, v in case["params"])
@@ -964,6 +1628,12 @@ class ParamsC(Component):
 
     def oracle(self, case, impl_out):
         from aiortc import sdp
+        if impl_out.startswith("HARNESS-EXC"):
+            return None
+        if " => " in impl_out:
+            return impl_out.split(" => ", 1)[1]
+        if impl_out != self._single(case):
+            return "the text parsed differently in the process where results of earlier parses were modified: " + _short(impl_out, 300)
         if "params" in case:
             d = {k: v for k, v in case["params"]}
             s = sdp.parameters_to_sdp(d)
@@ -1003,8 +1673,8 @@ class ParamsC(Component):
         return None
 
     def label(self, case, impl_out):
-        k = next(iter(case))
-        parts = impl_out.split(" || ")
+        k = next(x for x in case if x != "k")
+        parts = impl_out.split(" => ")[0].split(" || ")
         return k + ":" + "/".join(p.split(" ", 1)[0] for p in parts)
 
 
@@ -1070,8 +1740,336 @@ class LexC(Component):
         return case["op"] + ":" + ("ValueError" if impl_out == "ValueError" else "ok")
 
 
+# ------------------------------------------------------------------------------------------------
+# ops: sequences of steps on a pool of LIVE results, against the pure reference semantics (Model/Sdp/Ops.lean)
+# ------------------------------------------------------------------------------------------------
+
+NSLOTS = 4
+
+
+def _sig_message(line, mid, idx):
+    import json
+    return json.dumps({"candidate": "candidate:" + line, "id": mid, "label": idx, "type": "candidate"}, sort_keys=True)
+
+
+def _both_session(t):
+    tg, r = _try(lambda: _parse(t))
+    if tg != "ok":
+        return tg + " || " + tg, None
+    return "ok " + canon_session(session_spec(r)) + " || " + outcome(lambda: str(r), enc), r
+
+
+def _both_cand(line):
+    from aiortc import sdp
+    tg, r = _try(lambda: sdp.candidate_from_sdp(line))
+    if tg != "ok":
+        return tg + " || " + tg, None
+    return "ok " + canon_cand(cand_spec(r)) + " || ok " + enc(sdp.candidate_to_sdp(r)), r
+
+
+def _modelable(t: str) -> bool:
+    return not any(0xD800 <= ord(c) <= 0xDFFF for c in t)
+
+
+class Ops(Isolated):
+    """case = {"texts": [...], "lines": [...], "steps": [...]}; steps:
+         ["p", slot, ti]            SessionDescription.parse(texts[ti]) -> slot          obs: parse || str
+         ["c", slot, li]            candidate_from_sdp(lines[li]) -> slot                obs: candidate || line
+         ["t", slot, li, mid, idx]  object_from_string(candidate message) -> slot        obs: candidate || line @mid idx
+         ["h", slot, k]             the owner modifies everything in the slot            obs: -
+         ["a", slot, ti]            the owner overwrites every field of the description in the slot (in place) with the
+                                    values of texts[ti]                                  obs: -
+         ["s", slot]                str(slot) / candidate_to_sdp(slot) (+ @mid idx)      obs: text  (? after "h")
+       The reference semantics is pure: a parse observes its text only, a slot holds a VALUE."""
+    name = "ops"
+    theorems = ["ops_parse_pure", "ops_reparse_same", "ops_cand_pure", "ops_str_current_value", "ops_parsed_then_str",
+                "ops_slots_independent", "ops_trickle_keeps_mid", "ops_assign_roundtrip"]
+
+    def corpus(self):
+        line = "1 1 udp 2130706431 203.0.113.7 40000 typ host"
+        t0 = ("v=0\r\no=- 1 2 IN IP4 127.0.0.1\r\ns=-\r\nt=0 0\r\nm=audio 40001 UDP/TLS/RTP/SAVPF 0\r\nc=IN IP4 203.0.113.7\r\na=sendrecv\r\na=mid:0\r\n"
+              "a=rtcp:9 IN IP4 0.0.0.0\r\na=rtcp-mux\r\na=rtpmap:0 PCMU/8000\r\na=candidate:" + line + "\r\n"
+              "a=candidate:8 1 udp 1694498815 198.51.100.9 50001 typ srflx raddr 203.0.113.7 rport 40001\r\na=end-of-candidates\r\n"
+              "a=ice-ufrag:5+Ix\r\na=ice-pwd:uK8IlylxzDMUhrkVzdmj0M\r\na=fingerprint:sha-256 6B:8B\r\na=setup:actpass\r\n")
+        t1 = t0.replace("a=mid:0", "a=mid:1").replace("m=audio 40001", "m=audio 40002").replace("5+Ix", "other")
+        return [
+            {"texts": [], "lines": [line], "steps": [["t", 0, 0, "0", 0], ["t", 1, 0, "1", 1], ["s", 0], ["s", 1]]},
+            {"texts": [t0], "lines": [], "steps": [["p", 0, 0], ["h", 0, 1], ["p", 1, 0], ["s", 1]]},
+            {"texts": [t0, t1], "lines": [line], "steps": [["p", 0, 0], ["p", 1, 1], ["h", 0, 2], ["s", 1], ["p", 2, 1], ["t", 3, 0, "0", 0], ["p", 0, 0], ["s", 0]]},
+            {"texts": [t0, t1], "lines": [], "steps": [["p", 0, 0], ["s", 0], ["a", 0, 1], ["s", 0], ["a", 0, 0], ["s", 0], ["p", 1, 1], ["s", 1]]},
+        ]
+
+    def cases(self, rng, tier):
+        quick = tier == "quick"
+        pool_specs = []
+        for cfg in (PC_CONFIGS[:6] if quick else PC_CONFIGS):
+            pool_specs += [spec for _, spec, _ in real_descriptions(cfg)]
+        browsers = browser_sdps()
+        out = []
+        for n in range(160 if quick else 3000):
+            base = rng.choice(pool_specs) if (pool_specs and rng.random() < 0.25) else gen_session(rng)
+            if rng.random() < 0.6:
+                base = share_within(rng, base)
+            texts = []
+
+            def add(fn):
+                try:
+                    t = fn()
+                except Exception:  # noqa: BLE001
+                    return
+                if _modelable(t) and t not in texts:
+                    texts.append(t)
+            add(lambda: str(session_build(base)))
+            for _ in range(rng.randint(1, 3)):
+                r = rng.random()
+                if r < 0.35:
+                    add(lambda: str(session_build(share_subtexts(rng, gen_session(rng), base))))
+                elif r < 0.6:
+                    add(lambda: str(session_build(edit_spec(base, rng.randrange(1, 1000)))))
+                elif r < 0.85 and texts:
+                    add(lambda: mutate_text(rng, rng.choice(texts)))
+                elif browsers:
+                    add(lambda: rng.choice(browsers))
+            lines = []
+            for t in texts:
+                for l in t.splitlines():
+                    if l.startswith("a=candidate:") and l[12:] not in lines and len(lines) < 4:
+                        lines.append(l[12:])
+            if not lines or rng.random() < 0.3:
+                lines.append(cand_line(gen_candidate(rng)))
+            steps = []
+            shape = n % 5
+            nt, nl = len(texts), len(lines)
+            if shape == 0 and nt:  # parse, owner modifies, parse the same text and a sibling again, print everything
+                ti = rng.randrange(nt)
+                steps = [["p", 0, ti], ["h", 0, rng.randrange(1, 1000)], ["p", 1, ti], ["s", 1], ["p", 2, rng.randrange(nt)], ["s", 2], ["p", 0, ti], ["s", 0]]
+            elif shape == 1:  # one line trickled for several m-sections, in between it is parsed as part of descriptions
+                li = rng.randrange(nl)
+                for sl in range(rng.randint(2, NSLOTS)):
+                    steps.append(["t", sl, li, rng.choice(["0", "1", "2", token(rng, 1, 4)]), rng.choice([0, 1, 2, rng.randrange(64)])])
+                    if nt and rng.random() < 0.5:
+                        steps.append(["p", NSLOTS - 1, rng.randrange(nt)])
+                steps += [["s", sl] for sl in range(NSLOTS)] + [["c", 0, li], ["s", 0]]
+            elif shape == 2 and nt:  # parse, print, overwrite with a sibling, print, overwrite back, print
+                a, b = rng.randrange(nt), rng.randrange(nt)
+                steps = [["p", 0, a], ["s", 0], ["a", 0, b], ["s", 0], ["a", 0, a], ["s", 0], ["p", 1, b], ["s", 1], ["a", 1, a], ["s", 1], ["s", 0]]
+            else:
+                for _ in range(rng.randint(4, 24)):
+                    r = rng.random()
+                    sl = rng.randrange(NSLOTS)
+                    if r < 0.35 and nt:
+                        steps.append(["p", sl, rng.randrange(nt)])
+                    elif r < 0.5:
+                        steps.append(["h", sl, rng.randrange(1, 1000)])
+                    elif r < 0.7:
+                        steps.append(["s", sl])
+                    elif r < 0.8 and nt:
+                        steps.append(["a", sl, rng.randrange(nt)])
+                    elif r < 0.87:
+                        steps.append(["c", sl, rng.randrange(nl)])
+                    else:
+                        steps.append(["t", sl, rng.randrange(nl), rng.choice(["0", "1", token(rng, 1, 4)]), rng.randrange(4)])
+                steps += [["s", sl] for sl in range(NSLOTS)]
+            out.append({"texts": texts, "lines": lines, "steps": steps})
+        return out
+
+    # ---- reference semantics (pure; mirrors lean/Aiortc/Model/Sdp/Ops.lean) ----
+    @staticmethod
+    def reference(case, both_session, both_cand) -> list[str]:
+        """Expected observation of every step.  `both_session(t)` -> (obs, value or None), value only used through
+        `str_of(value)`; a slot holds ("sess", ti) | ("cand", line, mid, idx) | "unknown" | None."""
+        slots = [None] * NSLOTS
+        obs = []
+        cache_s, cache_c = {}, {}
+
+        def bs(ti):
+            if ti not in cache_s:
+                cache_s[ti] = both_session(case["texts"][ti])[0]
+            return cache_s[ti]
+
+        def bc(li):
+            if li not in cache_c:
+                cache_c[li] = both_cand(case["lines"][li])[0]
+            return cache_c[li]
+        for st in case["steps"]:
+            op, sl = st[0], st[1]
+            if op == "p":
+                o = bs(st[2])
+                slots[sl] = ("sess", st[2]) if o.startswith("ok ") else None
+                obs.append(o)
+            elif op in ("c", "t"):
+                o = bc(st[2])
+                mid = (st[3], st[4]) if op == "t" else None
+                slots[sl] = ("cand", st[2], mid) if o.startswith("ok ") else None
+                obs.append(o + (f" @{enc(st[3])} {st[4]}" if (op == "t" and o.startswith("ok ")) else ""))
+            elif op == "h":
+                if slots[sl] is not None:
+                    slots[sl] = "unknown"
+                obs.append("-")
+            elif op == "a":
+                if isinstance(slots[sl], tuple) and slots[sl][0] == "sess" and bs(st[2]).startswith("ok "):
+                    slots[sl] = ("sess", st[2])
+                obs.append("-")
+            else:
+                v = slots[sl]
+                if v is None:
+                    obs.append("-")
+                elif v == "unknown":
+                    obs.append("?")
+                elif v[0] == "sess":
+                    obs.append(bs(v[1]).split(" || ", 1)[1])
+                else:
+                    obs.append(bc(v[1]).split(" || ", 1)[1] + (f" @{enc(v[2][0])} {v[2][1]}" if v[2] else ""))
+        return obs
+
+    def model_line(self, case):
+        toks = []
+        for st in case["steps"]:
+            if st[0] in ("p", "a"):
+                toks += [st[0], str(st[1]), enc(case["texts"][st[2]])]
+            elif st[0] == "c":
+                toks += ["c", str(st[1]), enc(case["lines"][st[2]])]
+            elif st[0] == "t":
+                toks += ["t", str(st[1]), enc(case["lines"][st[2]]), enc(st[3]), str(st[4])]
+            elif st[0] == "h":
+                toks += ["h", str(st[1])]
+            else:
+                toks += ["s", str(st[1])]
+        if any(any(ch.isdigit() and not ch.isascii() for ch in l) for l in case["lines"]):
+            return None
+        return "sdp ops " + " ".join(toks)
+
+    def _impl_all(self, cases):
+        # pure phase first: what every text / line of every case parses to while nothing has been modified in this process yet
+        self._ref_s, self._ref_c = {}, {}
+        for c in cases:
+            for t in c["texts"]:
+                if t not in self._ref_s:
+                    o, r = _both_session(t)
+                    self._ref_s[t] = (o, snapshot(r), session_spec(r) if r is not None else None)
+            for l in c["lines"]:
+                if l not in self._ref_c:
+                    o, r = _both_cand(l)
+                    self._ref_c[l] = (o, snapshot(r))
+        return super()._impl_all(cases)
+
+    def _impl(self, case):
+        from aiortc import sdp
+        from aiortc.contrib import signaling
+        slots = [None] * NSLOTS      # live objects
+        mirror = [None] * NSLOTS     # what the reference semantics says the slot holds
+        obs, extra = [], None
+
+        def note(i, msg):
+            nonlocal extra
+            if extra is None:
+                extra = f"step {i} {case['steps'][i][:2]}: {msg}"
+        for i, st in enumerate(case["steps"]):
+            op, sl = st[0], st[1]
+            if op == "p":
+                t = case["texts"][st[2]]
+                o, r = _both_session(t)
+                ref = self._ref_s[t]
+                if o != ref[0] or snapshot(r) != ref[1]:
+                    note(i, "SessionDescription.parse(text) does not give what the same text gave before anything was modified in this process: "
+                         + snap_diff(ref[0] + " ## " + ref[1], o + " ## " + snapshot(r)))
+                slots[sl], mirror[sl] = r, (("sess", st[2]) if r is not None else None)
+                obs.append(o)
+            elif op in ("c", "t"):
+                l = case["lines"][st[2]]
+                if op == "c":
+                    o, r = _both_cand(l)
+                    snap = snapshot(r)
+                else:
+                    msg = _sig_message(l, st[3], st[4])
+                    tg, r = _try(lambda: signaling.object_from_string(msg))
+                    if tg != "ok":
+                        o, snap = tg + " || " + tg, "~"
+                    else:
+                        o = "ok " + canon_cand(cand_spec(r)) + " || ok " + enc(sdp.candidate_to_sdp(r)) + f" @{opt(enc, r.sdpMid)} {opt(si, r.sdpMLineIndex)}"
+                        mid, idx = r.sdpMid, r.sdpMLineIndex
+                        try:
+                            r.sdpMid = r.sdpMLineIndex = None
+                            snap = snapshot(r)
+                        finally:
+                            r.sdpMid, r.sdpMLineIndex = mid, idx
+                ref = self._ref_c[l]
+                if o.split(" @")[0] != ref[0] or snap != ref[1]:
+                    note(i, "the candidate line does not parse to what the same line gave before anything was modified in this process: "
+                         + snap_diff(ref[0] + " ## " + ref[1], o + " ## " + snap))
+                slots[sl] = r
+                mirror[sl] = ("cand", st[2], (st[3], st[4]) if op == "t" else None) if r is not None else None
+                obs.append(o)
+            elif op == "h":
+                if slots[sl] is not None:
+                    hostile(slots[sl], st[2])
+                    mirror[sl] = "unknown"
+                obs.append("-")
+            elif op == "a":
+                spec2 = self._ref_s[case["texts"][st[2]]][2]
+                if isinstance(mirror[sl], tuple) and mirror[sl][0] == "sess" and spec2 is not None:
+                    session_assign(slots[sl], spec2)
+                    mirror[sl] = ("sess", st[2])
+                obs.append("-")
+            else:
+                v, m = slots[sl], mirror[sl]
+                if m is None:
+                    obs.append("-")
+                elif m == "unknown":
+                    _try(lambda: str(v))
+                    obs.append("?")
+                elif m[0] == "sess":
+                    obs.append(outcome(lambda: str(v), enc))
+                else:
+                    obs.append(outcome(lambda: sdp.candidate_to_sdp(v), enc) + (f" @{opt(enc, v.sdpMid)} {opt(si, v.sdpMLineIndex)}" if m[2] else ""))
+                    if m[2] and signaling.object_to_string(v) != _sig_message(sdp.candidate_to_sdp(v), m[2][0], m[2][1]):
+                        note(i, f"the candidate decoded for mid {m[2][0]!r} index {m[2][1]} now encodes to {signaling.object_to_string(v)}")
+        # the pure reference, from the observations made before anything was modified
+        want = self.reference(case, lambda t: (self._ref_s[t][0], None), lambda l: (self._ref_c[l][0], None))
+        for i, (g, w) in enumerate(zip(obs, want)):
+            if g != w:
+                note(i, "observed " + _short(snap_diff(w, g), 400) + " (left: what a history-free evaluation gives)")
+                break
+        return " ## ".join(obs) + (" => " + extra if extra else "")
+
+    def oracle(self, case, impl_out):
+        if impl_out.startswith("HARNESS-EXC"):
+            return None
+        if " => " in impl_out:
+            return impl_out.split(" => ", 1)[1]
+        # this process never modifies a result: evaluate every text once, derive what every step must show
+        want = " ## ".join(self.reference(case, _both_session, _both_cand))
+        if impl_out != want:
+            return "the sequence observed " + snap_diff(want, impl_out) + " (left: what a history-free evaluation gives)"
+        return None
+
+    def label(self, case, impl_out):
+        ops = "".join(sorted({st[0] for st in case["steps"]}))
+        return ops + (":dev" if " => " in impl_out else "")
+
+    def _shrink(self, case):
+        steps = case["steps"]
+        if len(steps) > 2:
+            yield dict(case, steps=steps[:len(steps) // 2])
+            yield dict(case, steps=steps[len(steps) // 2:])
+        for i in range(len(steps)):
+            yield dict(case, steps=steps[:i] + steps[i + 1:])
+        used_t = sorted({st[2] for st in steps if st[0] in ("p", "a")})
+        used_l = sorted({st[2] for st in steps if st[0] in ("c", "t")})
+        if len(used_t) < len(case["texts"]) or len(used_l) < len(case["lines"]):
+            mt, ml = {o: n for n, o in enumerate(used_t)}, {o: n for n, o in enumerate(used_l)}
+            yield {"texts": [case["texts"][i] for i in used_t], "lines": [case["lines"][i] for i in used_l],
+                   "steps": [[st[0], st[1], (mt if st[0] in ("p", "a") else ml)[st[2]]] + st[3:] if st[0] in ("p", "a", "c", "t") else st for st in steps]}
+        for ti in used_t:
+            ls = case["texts"][ti].splitlines()
+            if len(ls) > 1:
+                for j in range(len(ls)):
+                    t2 = "\r\n".join(ls[:j] + ls[j + 1:]) + "\r\n"
+                    yield dict(case, texts=case["texts"][:ti] + [t2] + case["texts"][ti + 1:])
+
+
 def components(tier):
-    return [Session(), CandidateC(), ParamsC(), LexC()]
+    return [Session(), CandidateC(), ParamsC(), LexC(), Ops()]
 
 
 def classify_finding(finding, comp_name, case, what):
